@@ -3,6 +3,7 @@ package main
 
 import (
 	"fmt"
+	"os"
 	"strings"
 
 	"github.com/pinealctx/neptune/cache"
@@ -10,6 +11,7 @@ import (
 	"github.com/pinealctx/neptune/remap"
 
 	"verifh/ev"
+	"verifh/mc"
 	"verifh/seq"
 )
 
@@ -19,17 +21,17 @@ func (v *val) Size() int { return v.size }
 
 // full: the complete single-cache API, adapted for both packages
 type full struct {
-	set              func(k string, v *val)
-	setIfAbsent      func(k string, v *val)
-	setAndGetRemoved func(k string, v *val) []*val
-	get, peek        func(k string) (*val, bool)
-	exist            func(k string) bool
-	del              func(k string) bool
-	clear            func()
-	setCapacity      func(c int64)
-	keys             func() []string
-	items            func() []string // "key:id"
-	stats            func() (l, s, c, e int64)
+	set                               func(k string, v *val)
+	setIfAbsent                       func(k string, v *val)
+	setAndGetRemoved                  func(k string, v *val) []*val
+	get, peek                         func(k string) (*val, bool)
+	exist                             func(k string) bool
+	del                               func(k string) bool
+	clear                             func()
+	setCapacity                       func(c int64)
+	keys                              func() []string
+	items                             func() []string // "key:id"
+	stats                             func() (l, s, c, e int64)
 	length, size, capacity, evictions func() int64
 }
 
@@ -354,9 +356,9 @@ func fullOps(sizes []int, caps []int64) []seq.Op[*st] {
 // ---- wide variants: Get/Peek/Exist/Set/Delete only, per-shard ideal LRU ----
 
 type wide struct {
-	set              func(k int, v *val)
-	get, peek        func(k int) (*val, bool)
-	exist, del       func(k int) bool
+	set        func(k int, v *val)
+	get, peek  func(k int) (*val, bool)
+	exist, del func(k int) bool
 }
 
 type wst struct {
@@ -472,9 +474,9 @@ func main() {
 								return v.(*val), ok
 							}
 							return &wst{route: func(k int) int { return route(k) }, shards: newShards(false), w: &wide{
-								set:  func(k int, v *val) { c.Set(k, v) },
-								get:  func(k int) (*val, bool) { return toV(c.Get(k)) },
-								peek: func(k int) (*val, bool) { return toV(c.Peek(k)) },
+								set:   func(k int, v *val) { c.Set(k, v) },
+								get:   func(k int) (*val, bool) { return toV(c.Get(k)) },
+								peek:  func(k int) (*val, bool) { return toV(c.Peek(k)) },
 								exist: func(k int) bool { return c.Exist(k) }, del: func(k int) bool { return c.Delete(k) }}}
 						}})
 				})
@@ -494,9 +496,9 @@ func main() {
 								return v.(*val), ok
 							}
 							return &wst{route: func(k int) int { return route(k) }, shards: newShards(true), w: &wide{
-								set:  func(k int, v *val) { c.Set(k, v) },
-								get:  func(k int) (*val, bool) { return toV(c.Get(k)) },
-								peek: func(k int) (*val, bool) { return toV(c.Peek(k)) },
+								set:   func(k int, v *val) { c.Set(k, v) },
+								get:   func(k int) (*val, bool) { return toV(c.Get(k)) },
+								peek:  func(k int) (*val, bool) { return toV(c.Peek(k)) },
 								exist: func(k int) bool { return c.Exist(k) }, del: func(k int) bool { return c.Delete(k) }}}
 						}})
 				})
@@ -504,5 +506,12 @@ func main() {
 		}
 	}
 	seq.Parallel(16, jobs)
+	// the concurrent clause: engine-S companion binary (harness/c04s)
+	if r.Only == "" {
+		if nd := mc.DriveBin(r, os.Getenv("VERIF_SCHED_BIN")); nd != "" && r.NViolations() == 0 {
+			fmt.Println("engine-S companion failed (machinery error, not a verdict):", nd)
+			r.Finish0(2)
+		}
+	}
 	r.Finish()
 }
